@@ -205,6 +205,61 @@ def gen_alias_config(rng: random.Random) -> Tuple[Any, List[str]]:
     return cfg, ["alias:" + mode, "alias_pair:" + ".".join(canon)]
 
 
+# recipes that make the SAME error line fire twice, keyed by the duplicate-capable site they exercise
+DUP_RECIPES = ["fixtures_path_twice", "cooldowns_nonstr_keys", "cooldowns_1_and_str1", "sibling_keys", "namespaces_repeated",
+               "partitions_by_repeated"]
+DUP_SITE_OF = {"fixtures_path_twice": "t3.llm.fixtures.path", "cooldowns_nonstr_keys": "'t4.cooldowns'",
+               "cooldowns_1_and_str1": "f't4.cooldowns[{k}]'", "sibling_keys": "<unknown-key loops>",
+               "namespaces_repeated": "f't4.cache.namespaces[{ns}]'",
+               "partitions_by_repeated": "f'perf.t2.reader.partitions.by[{fld}]'"}
+# duplicate-capable by source text but not reachable twice: the checked value is a constant default
+DUP_UNREACHABLE = {"t2.quality.fusion.alpha_semantic"}
+
+
+def gen_dup_config(rng: random.Random, recipe: Optional[str] = None) -> Tuple[Any, List[str]]:
+    T = table()
+    recipe = recipe or rng.choice(DUP_RECIPES)
+    base = rng.random()
+    cfg: Any = {} if base < 0.6 else copy.deepcopy(RICH)
+    if recipe == "fixtures_path_twice":
+        fx: Dict[str, Any] = {"enabled": rng.choice([True, "yes", 1])}
+        if rng.random() < 0.6:
+            fx["path"] = rng.choice(["", "   ", None, 5, [], {}])
+        _set_path(cfg, ("t3", "allow_reflection"), rng.choice([True, "true", 1]))
+        _set_path(cfg, ("t3", "reflection", "backend"), rng.choice(["llm", "LLM"]))
+        _set_path(cfg, ("t3", "llm", "fixtures"), fx)
+    elif recipe == "cooldowns_nonstr_keys":
+        ks = rng.sample([1, 2, 0, -3, 1.5, None, True, 7], k=rng.choice([2, 3, 4]))
+        _set_path(cfg, ("t4", "cooldowns"), {k: rng.choice([1, 0, 5]) for k in ks})
+    elif recipe == "cooldowns_1_and_str1":
+        k = rng.choice([1, 0, 1.5, None, True])
+        _set_path(cfg, ("t4", "cooldowns"), {k: rng.choice([-1, -5, "-2"]), str(k): rng.choice([-1, -7])})
+    elif recipe == "sibling_keys":
+        sp = rng.choice(sorted(T["sections"].keys()))
+        if sp and sp[0] == "perf":
+            _set_path(cfg, ("perf", "enabled"), True)
+        k = rng.choice([1, 0, 1.5, True, None, -3, 10 ** 20])
+        d: Any = cfg
+        for seg in sp:
+            if not isinstance(d.get(seg), dict):
+                d[seg] = {}
+            d = d[seg]
+        if sp[:2] == ("t2", "quality") and "enabled" not in cfg["t2"]["quality"]:
+            cfg["t2"]["quality"]["enabled"] = False
+        d[k] = rng.choice([1, None, {}])
+        d[str(k)] = rng.choice([1, None, {}])
+        if rng.random() < 0.3:
+            d[" " + str(k)] = 1
+    elif recipe == "namespaces_repeated":
+        ns = rng.choice(["a", "t2", "t2:semantics", ""])
+        _set_path(cfg, ("t4", "cache", "namespaces"), [ns] * rng.choice([2, 3]) + rng.choice([[], ["t2:semantic"], ["b"]]))
+    else:
+        f = rng.choice(["x", "owners", " "])
+        _set_path(cfg, ("perf", "enabled"), rng.choice([True, False]))
+        _set_path(cfg, ("perf", "t2", "reader", "partitions", "by"), [f] * rng.choice([2, 3]) + rng.choice([[], ["owner"]]))
+    return cfg, ["dup:" + recipe]
+
+
 UNK_RE = re.compile(r" unknown (top-level )?key( \(did you mean '[^']*'\))?\Z")
 
 
@@ -429,6 +484,24 @@ def call_apis(cfg: Any) -> dict:
         agree.append("verbose message text differs")
     elif plain[0] == "ok" and not deq(verbose[1][0], plain[1]):
         agree.append("verbose normalised config differs")
+    # the ordered message LIST every variant must carry (multiset and order): the lines of the raise text
+    def want_list(text_: str) -> List[str]:
+        m = text_.strip()
+        return m.split("\n") if m else ["invalid configuration"]
+
+    def list_diff(name: str, got: Any, want: List[str]) -> Optional[str]:
+        if not isinstance(got, list):
+            return f"{name} returned {type(got).__name__} instead of a list of messages"
+        if got == want:
+            return None
+        from collections import Counter
+        cg, cw = Counter(map(str, got)), Counter(want)
+        miss = list((cw - cg).elements())[:3]
+        extra = list((cg - cw).elements())[:3]
+        if not miss and not extra:
+            return f"{name}: same messages in a different ORDER: {got!r:.200} vs {want!r:.200}"
+        return (f"{name}: {len(got)} messages vs {len(want)} in the ConfigError; missing (with multiplicity) {miss!r:.300}; "
+                f"extra {extra!r:.200}")
     # api tuple
     if api[0] == "ok":
         ok, errs, norm = api[1]
@@ -436,8 +509,11 @@ def call_apis(cfg: Any) -> dict:
             if not (ok is True and errs == [] and deq(norm, plain[1])):
                 agree.append("validate_config_api disagrees on an accepted config")
         elif plain[0] == "config_error":
-            if ok is not False or norm is not None or "\n".join(errs) != (plain[1].strip() or "invalid configuration"):
-                agree.append(f"validate_config_api errs {errs!r:.200} vs raise text {plain[1]!r:.200}")
+            if ok is not False or norm is not None:
+                agree.append("validate_config_api verdict differs from the raising form")
+            d = list_diff("validate_config_api", errs, want_list(plain[1]))
+            if d:
+                agree.append(d)
         rec["api_errs"] = errs if isinstance(errs, list) else None
     elif api[0] == "config_error":
         agree.append("validate_config_api raised ConfigError")
@@ -454,8 +530,11 @@ def call_apis(cfg: Any) -> dict:
             elif verbose[0] == "ok" and warns2 != verbose[1][1]:
                 agree.append("compat warnings differ from verbose warnings")
         elif plain[0] == "config_error":
-            if errs2 is None or "\n".join(errs2) != (plain[1].strip() or "invalid configuration") or warns2 != []:
-                agree.append("compat errors differ from raise text")
+            d = list_diff("validate_config(cfg, strict=True)", errs2, want_list(plain[1]))
+            if d:
+                agree.append(d)
+            if warns2 != []:
+                agree.append("compat form returns warnings together with errors")
     elif compat[0] == "config_error":
         agree.append("compat form raised ConfigError")
     rec["disagree"] = agree
@@ -500,7 +579,10 @@ class ValidMsgs(Component):
     budget = {"quick": 2500, "thorough": 40000, "search": 40000}
 
     def gen(self, rng: random.Random, i: int) -> dict:
-        if rng.random() < 0.12:
+        r0 = rng.random()
+        if r0 < 0.06:
+            cfg, tags = gen_dup_config(rng, DUP_RECIPES[i % len(DUP_RECIPES)] if i < 4 * len(DUP_RECIPES) else None)
+        elif r0 < 0.18:
             cfg, tags = gen_alias_config(rng)
         else:
             cfg, tags = gen_config(rng, valid_only=(rng.random() < 0.3))
@@ -569,6 +651,8 @@ class ValidMsgs(Component):
                 t.add("msg_opaque_rule")
             if len(impl_out["all_msgs"]) > 3:
                 t.add("many_errors")
+            if len(set(impl_out["all_msgs"])) < len(impl_out["all_msgs"]):
+                t.add("same_line_twice")
         if impl_out.get("alias"):
             t.add("output_aliases_input")
         t.discard("accept")
@@ -769,7 +853,12 @@ def run_cli_stream(ctx: Ctx, n: int) -> None:
     tries = 0
     while len(cases) < n and tries < 50 * n:
         tries += 1
-        cfg, tags = gen_config(rng, valid_only=(rng.random() < 0.35))
+        if tries <= len(DUP_RECIPES):
+            cfg, tags = gen_dup_config(rng, DUP_RECIPES[tries - 1])
+        elif rng.random() < 0.1:
+            cfg, tags = gen_dup_config(rng)
+        else:
+            cfg, tags = gen_config(rng, valid_only=(rng.random() < 0.35))
         if yaml_roundtrip(cfg) is None:
             continue
         cases.append({"cfg": enc(cfg), "seed": rng.choice([0, 1, 2, 3, 7]), "umbrella": rng.random() < 0.1})
@@ -989,6 +1078,78 @@ def run_unchecked_stream(ctx: Ctx, n_vals: int) -> None:
                                  key="C14:runnable:unvalidated_allowed_key")
 
 
+# --------------------------------------------------------------------------
+# component 7: every knob documented as "(or null)" runs with an explicit null (systematic sweep)
+# --------------------------------------------------------------------------
+
+def null_knobs() -> List[Tuple[str, ...]]:
+    """Keys whose rule message says "(or null)" (typed or opaque rules) + leaves that are None in DEFAULTS."""
+    T = table()
+    t = T["t"]
+    out: List[Tuple[str, ...]] = []
+    for r in t["rules"]:
+        if r["kind"] in ("num", "enum") and re.search(r"or (null|none)\b", r["msg"], re.I):
+            out.append(tuple(r["path"].split(".")))
+    for o in t["opaque"]:
+        if re.search(r"or (null|none)\b", o.get("msg", ""), re.I) and "{" not in o["path"]:
+            out.append(tuple(o["path"].split(".")))
+
+    def walk(d, p=()):
+        for k, v in d.items():
+            if v is None:
+                out.append(p + (k,))
+            elif isinstance(v, dict):
+                walk(v, p + (k,))
+    walk(T["defaults"])
+    seen: List[Tuple[str, ...]] = []
+    for p in out:
+        if p not in seen:
+            seen.append(p)
+    return seen
+
+
+def null_sweep_cases(all_worlds: bool) -> List[dict]:
+    knobs = null_knobs()
+    groups: Dict[Tuple[str, ...], List[Tuple[str, ...]]] = {}
+    for p in knobs:
+        groups.setdefault(p[:-1], []).append(p)
+    combos: List[List[Tuple[str, ...]]] = [[p] for p in knobs] + [g for g in groups.values() if len(g) > 1]
+    if len(groups) > 1:
+        combos.append(list(knobs))
+    cases = []
+    i = 0
+    for combo in combos:
+        for sched in (True, False):
+            for base in ("empty", "rich"):
+                cfg: Any = {} if base == "empty" else copy.deepcopy(RICH)
+                _set_path(cfg, ("scheduler", "enabled"), sched)
+                for p in combo:
+                    _set_path(cfg, p, None)
+                for w in (range(3) if all_worlds else [i % 3]):
+                    cases.append({"cfg": enc(cfg), "world": w, "nulls": [".".join(p) for p in combo]})
+                i += 1
+    return cases
+
+
+def run_null_sweep(ctx: Ctx, all_worlds: bool) -> None:
+    cases = list(ctx.load_corpus("valid_nullsweep")) + null_sweep_cases(all_worlds)
+    ctx.extra["or_null_knobs_swept"] = [".".join(p) for p in null_knobs()]
+    for c in cases:
+        res = run_one_runnable(ctx, c)
+        if res is None:
+            # an explicit null on a knob documented "(or null)" must be ACCEPTED
+            ctx.record_case("valid_nullsweep", c, ["rejected"])
+            ctx.monitor_fail("valid_nullsweep", "documented_null_is_accepted", c,
+                             f"explicit null on {c.get('nulls')} is documented as allowed but the validator does not accept it")
+            continue
+        ctx.record_case("valid_nullsweep", c, ["ran_2_turns" if res.get("ok") else "raised:" + str(res.get("exc"))])
+        if not res.get("ok"):
+            ctx.monitor_fail("valid_nullsweep", "accepted_config_runs_two_turns", c,
+                             f"explicit null on {c.get('nulls')} (documented '(or null)') is accepted and the engine raises "
+                             f"{res.get('exc')}: {res.get('msg')} at {res.get('where')} after {res.get('turns')} turn(s)",
+                             key=runnable_key(res))
+
+
 COMPONENTS = [ValidMsgs(), Helpers()]
 EXTRA_OBLIGATIONS: List[str] = []
 
@@ -1006,6 +1167,14 @@ def run(ctx: Ctx) -> None:
     run_runnable_stream(ctx, int(n_run * scale))
     run_state_stream(ctx, int({"quick": 40, "thorough": 400, "search": 400}[tier] * scale))
     run_unchecked_stream(ctx, 3 if tier == "quick" else len(BAD_LEAVES))
+    run_null_sweep(ctx, all_worlds=(tier != "quick"))
+    dup = T0["t"].get("dup_sites", {}) if (T0 := table()) else {}
+    covered = set(DUP_SITE_OF.values())
+    ctx.extra["duplicate_capable_sites"] = {
+        "same_line_two_sites": dup.get("same", []), "data_driven_loops": len(dup.get("loop", [])),
+        "without_recipe": sorted(p for p in dup.get("same", []) if p not in covered and p not in DUP_UNREACHABLE) +
+        sorted(p for p in dup.get("loop", []) if p not in covered and "unknown" not in p and p != "k" and "{k}'" not in p),
+        "unreachable_twice": sorted(DUP_UNREACHABLE)}
     T = table()
     ctx.extra["rule_table"] = {"typed_rules": len(T["t"]["rules"]), "opaque_err_sites": len(T["t"]["opaque"]),
                                "opaque_paths": sorted(T["opaque_paths"])[:60], "hash_order_sites": T["t"]["hash_sites"]}
@@ -1043,9 +1212,9 @@ def replay(ctx: Ctx, rec: dict) -> int:
             print(f"REPLAY monitor {f['monitor']} FAILS: {f['detail'][:300]}")
         print(f"REPLAY component=valid_state ok={ok}")
         return 0 if ok else 1
-    if comp in ("valid_runnable", "valid_unchecked"):
+    if comp in ("valid_runnable", "valid_unchecked", "valid_nullsweep"):
         res = run_one_runnable(ctx, case)
-        print(f"REPLAY component=valid_runnable result={res}")
+        print(f"REPLAY component={comp} result={res}")
         return 0 if (res is None or res.get("ok")) else 1
     print(f"REPLAY unknown component {comp}")
     return 2
